@@ -11,6 +11,8 @@ interleaving, every job tree and any number of workers.
                                   root) has been deleted
   * `proto_deleted_exactly_once`  along every run each step is destroyed at most once, and
                                   exactly once when the pool is quiescent
+  * `proto_phase_stage`, `proto_phase_at_most_once`, `proto_phase_exactly_once`, `proto_phase_jobs`
+                                  sample() / count_finished() / distribute_finished() run exactly once per step
   * `proto_orig_D24*`, `proto_orig_loop_uaf`   the code as it was found reaches a use-after-free
   * `proto_ranking`, `proto_progress`, `proto_reaches_quiescent`, `proto_terminates`   termination: a ranking
                                   function decreases with every step that does not create a sub-step
@@ -32,6 +34,7 @@ Part 2: the functional layer (Model/C04Key, C04Classify, C04Sort).
 -/
 import TlxVerif.Proofs.C04ProtoInv
 import TlxVerif.Proofs.C04Term
+import TlxVerif.Proofs.C04Phase
 import TlxVerif.Proofs.C04Str
 import TlxVerif.Proofs.C04Assemble
 import TlxVerif.Proofs.C04Step
@@ -120,22 +123,6 @@ theorem proto_quiescent_all_deleted {s : State} (h : Reachable Cfg.fixed s) (hq 
 
 /-! ### runs with their counter events -/
 
-/-- a run of the system together with the events it emits -/
-inductive Run (cfg : Cfg) : State → List Event → Prop
-  | init (k : Kind) (parts : Nat) : Run cfg (init k parts) []
-  | step {s : State} {evs : List Event} (pre : List (List Instr)) (i : Instr) (rest : List Instr)
-      (post : List (List Instr)) (ch : Choice) :
-      Run cfg s evs → s.tasks = pre ++ (i :: rest) :: post → s.err = none →
-      Run cfg
-        (let e := execHead cfg s.objs s.owed ch i
-         { objs := e.objs, tasks := pre ++ (e.blk ++ rest) :: post ++ e.nt, owed := e.owed, err := e.err })
-        (evs ++ (execHead cfg s.objs s.owed ch i).evs)
-
-theorem Run.reachable {cfg : Cfg} {s : State} {evs : List Event} (h : Run cfg s evs) : Reachable cfg s := by
-  induction h with
-  | init k parts => exact Reachable.init k parts
-  | step pre i rest post ch _ ht he ih => exact Reachable.step ih ⟨pre, i, rest, post, ch, ht, he, rfl⟩
-
 theorem count_destroy_evs (cfg : Cfg) (objs : List Obj) (owed : List (Nat × Nat)) (ch : Choice) (i : Instr) (j : Nat) :
     ((execHead cfg objs owed ch i).evs.count (.destroy j) = 0) ∨
     (i = .del j ∧ (execHead cfg objs owed ch i).evs = [.destroy j] ∧ (execHead cfg objs owed ch i).err = none ∧
@@ -153,15 +140,6 @@ theorem count_destroy_evs (cfg : Cfg) (objs : List Obj) (owed : List (Nat × Nat
       · left; simp [hc]
     all_goals (left; (try split) <;> (try split) <;> simp)
   · left; simp [hal]
-
-theorem execHead_length_le (cfg : Cfg) (objs : List Obj) (owed : List (Nat × Nat)) (ch : Choice) (i : Instr) :
-    objs.length ≤ (execHead cfg objs owed ch i).objs.length := by
-  unfold execHead
-  split
-  · simp
-  · split
-    · simp
-    · cases i <;> simp only [] <;> (try split) <;> (try split) <;> simp [modObj_length]
 
 /-- no destroy event mentions a step that does not exist (yet) -/
 theorem destroy_fresh {cfg : Cfg} {s : State} {evs : List Event} (h : Run cfg s evs) :
@@ -290,6 +268,48 @@ theorem proto_deleted_exactly_once {s : State} {evs : List Event} (h : Run Cfg.f
   have hal : s.objs[id].alive = false := by
     unfold aliveAt at hdead; rw [ho] at hdead; exact hdead
   simpa [hal] using this
+
+/-! ### every phase transition exactly once -/
+
+/-- **The stage of a big step.**  Along every run of the fixed code, for every step `id`: with
+`st` = number of `pwork_ = parts_` stores so far (`sample()`, `count_finished()`) and `z` = number of
+times `--pwork_` reached 0 (a phase completed: `count_finished()` resp. `distribute_finished()` starts),
+`(st, z)` is one of (0,0), (1,0), (1,1), (2,1), (2,2), and the pending instructions match: before
+`sample()` at most one pending `startLoop`; in (1,0) only count jobs are pending (at least one); in (1,1)
+exactly the `startLoop` of `count_finished()` and no part job; in (2,1) only distribute jobs; in (2,2)
+nothing of the phase protocol.  (The code `--pwork_; if (pwork_ == 0) …` is not this system: there two
+jobs can both see 0, which is the third store / second completion this theorem excludes.) -/
+theorem proto_phase_stage {s : State} {evs : List Event} (h : Run Cfg.fixed s evs) (id : Nat) :
+    PhaseOk (N (isStartPh id .count) s) (N (isStartPh id .dist) s) (N (isPendPh id .count) s)
+      (N (isPendPh id .dist) s) (nStore id evs) (nZero id evs) := (phInv_run h).ok id
+
+/-- **Each phase transition runs at most once**: at most two stores and two completions per step,
+strictly alternating (store, completion, store, completion). -/
+theorem proto_phase_at_most_once {s : State} {evs : List Event} (h : Run Cfg.fixed s evs) (id : Nat) :
+    nStore id evs ≤ 2 ∧ nZero id evs ≤ nStore id evs ∧ nStore id evs ≤ nZero id evs + 1 := by
+  have := (phInv_run h).ok id
+  unfold PhaseOkAt PhaseOk at this
+  rcases this with h | h | h | h | h <;> omega
+
+/-- **… and exactly once when the pool is quiescent**: a step that ever armed `pwork_` (a big step whose
+`sample()` ran — at quiescence every big step) went through exactly two stores and two completions, i.e.
+`sample()`, `count_finished()` and `distribute_finished()` ran exactly once each; other steps through none. -/
+theorem proto_phase_exactly_once {s : State} {evs : List Event} (h : Run Cfg.fixed s evs) (hq : s.quiescent)
+    (id : Nat) : (nStore id evs = 0 ∧ nZero id evs = 0) ∨ (nStore id evs = 2 ∧ nZero id evs = 2) := by
+  have := (phInv_run h).ok id
+  unfold PhaseOkAt PhaseOk at this
+  rw [NT_quiescent hq, NT_quiescent hq, NT_quiescent hq, NT_quiescent hq] at this
+  rcases this with h | h | h | h | h <;> omega
+
+/-- while a count job of step `id` is pending, `count_finished()` has not started; while a distribute job is
+pending, `count_finished()` ran exactly once and `distribute_finished()` not yet -/
+theorem proto_phase_jobs {s : State} {evs : List Event} (h : Run Cfg.fixed s evs) (id : Nat) :
+    (0 < N (isPendPh id .count) s → nStore id evs = 1 ∧ nZero id evs = 0) ∧
+    (0 < N (isPendPh id .dist) s → nStore id evs = 2 ∧ nZero id evs = 1) := by
+  have := (phInv_run h).ok id
+  unfold PhaseOkAt PhaseOk at this
+  unfold N
+  rcases this with h | h | h | h | h <;> omega
 
 /-! ### the code as it was found -/
 
@@ -586,11 +606,12 @@ theorem sample_sort_step_lemma (c : Classifier) (useCalc : Bool) (p : Str) (rs :
 `env` bundles `smallsort_threshold`, `inssort_threshold`, `TreeBits`, the classifier variant, the
 big/small decision of `enqueue` (any function, hence every `sequential_threshold()` incl.
 `enable_rest_size`), the samples drawn by every step and the pivots of every MKQS step.  `EnvOk`:
-thresholds ≥ 1, `1 ≤ TreeBits ≤ 31`, an empty range is never sent into a sample step, sample indices
+thresholds ≥ 1, `1 ≤ TreeBits ≤ 15` (bucket ids are stored as `std::uint16_t`), an empty range is never sent into a sample step, sample indices
 are `< n`.  For NUL-free input strings a run of the model that does not exhaust its fuel (`sortAll_terminates`: none does
 with fuel ≥ `fuelFor strs`) returns a
 permutation of the strings, sorted in unsigned-byte lexicographic order, with an LCP array of the same
-length whose entries `1..` are the exact LCPs of neighbours; and no run ever reads outside a string,
+length whose entries `1..` are the exact LCPs of neighbours (as stored in `LcpType = std::uint32_t`;
+`sortAll_exact_lcps`); and no run ever reads outside a string,
 the sample array, the splitter tree or the LCP array (`Err.oob`) or hits an internal error.
 Base cases are the C03 model of `insertion_sort` (`C03.insertionSort`, LCP overload). -/
 theorem sortAll_correct (env : Env) (henv : EnvOk env) (fuel : Nat) (strs : List Str)
@@ -600,6 +621,37 @@ theorem sortAll_correct (env : Env) (henv : EnvOk env) (fuel : Nat) (strs : List
   have h := sortAll_safe henv fuel strs hnf
   refine ⟨fun r hr => h.of_ok hr, ?_, ?_⟩ <;>
   · intro e; rw [e] at h; exact absurd h.2 (by decide)
+
+/-- **Integer widths of the step structures lose nothing.**  The model stores into `u8` / `u16` / `lcpT`
+wherever the C++ stores into `unsigned char` / `std::uint8_t` / `std::uint16_t` / `LcpType`
+(`Model/C04Key.lean`).  The key-relative LCP values fit the `std::uint8_t` fields of `MKQSStep`
+(`lcp_lt_`, `lcp_eq_`, `lcp_gt_`) and the `unsigned char` return types; a `splitter_lcp[]` entry holds value and
+`0x80` flag side by side.  (A field that held `depth + lcpKeyType(..)` instead would be `u8 (depth + ..)` in the
+model and `sortAll_correct` would not be provable.)  Bucket ids fit the `std::uint16_t` bucket cache because
+`EnvOk` has `TreeBits ≤ 15` (used inside `sampleBody_safe`). -/
+theorem narrow_fields_lossless (a b : Key) :
+    u8 (lcpKeyType a b) = lcpKeyType a b ∧ u8 (lcpKeyDepth a) = lcpKeyDepth a ∧
+      lcpKeyType a b = (a ^^^ b).clz.toNat / 8 ∧ lcpKeyDepth a = 8 - a.ctz.toNat / 8 ∧
+      lcpEntry a b = lcpKeyType a b + (if lowByte b = 0 then 128 else 0) :=
+  ⟨u8_lcpKeyType a b, u8_lcpKeyDepth a, lcpKeyType_def a b, lcpKeyDepth_def a, lcpEntry_def a b⟩
+
+/-- **LCP values and `LcpType`.**  `SortedLcp` (the conclusion of `sortAll_correct`) states the LCP entries as
+stored in the `std::uint32_t` array: `lcpT (lcp a b)`.  When every input string is shorter than 2^32 characters
+these are the exact LCPs. -/
+theorem sortAll_exact_lcps {strs : List Str} {r : Res} (h : SortedLcp strs r)
+    (hshort : ∀ s ∈ strs, s.length < 4294967296) :
+    ∀ i, 0 < i → i < r.out.length →
+      r.lcp[i]? = some (lcp ((r.out[i - 1]?).getD []) ((r.out[i]?).getD [])) := by
+  intro i h0 hi
+  rw [h.2.2.2 i h0 hi]
+  congr 1
+  apply lcpT_of_lt
+  have hm : r.out[i] ∈ strs := h.1.mem_iff.1 (List.getElem_mem hi)
+  have h1 := hshort _ hm
+  have h2 : lcp ((r.out[i - 1]?).getD []) ((r.out[i]?).getD []) ≤ r.out[i].length := by
+    rw [List.getElem?_eq_getElem hi, Option.getD_some, lcp_eq_c03]
+    exact C03.lcp_le_right _ _
+  omega
 
 /-- **The answer is independent of the parameter set, the samples, the pivots and every big/small
 decision** (and hence of how the work is split into jobs). -/
